@@ -366,6 +366,13 @@ impl Check for C14 {
         let mut tails = vec![Tail::None];
         tails.extend(fam::pos_tails().into_iter().take(3));
         tails.extend(fam::cmd_tails(0, true, true));
+        // sibling commands one of whose names is a prefix of the other; long names likewise
+        {
+            let sub = |slot: usize| fam::leaf(vec![fam::named(slot, Kind::Switch, 0, 0)], Tail::None);
+            let c = |n: &str, slot: usize| CmdDef { name: n.into(), shorts: vec![], longs: vec![], level: sub(slot) };
+            tails.push(Tail::Cmds { cmds: vec![c("cmd", 4), c("cmdx", 5)], wrap: CmdWrap::Required });
+            tails.push(Tail::Cmds { cmds: vec![c("cmdx", 5), c("cmd", 4)], wrap: CmdWrap::Optional });
+        }
         let mut j = 0usize;
         for mut l in fam::conventional(2, &tails, 0) {
             j += 1;
